@@ -312,6 +312,65 @@ fn search_chunk(ctx: &mut Ctx) {
         }
     }
 }
+
+/// Values for the adjacent-pair sweep: both neighbours of every class boundary of C12 / C06-C09 plus the bytes that bit tricks
+/// tend to alias (case folding 0x10-0x19 -> digits, 0x3a-0x3f "digit" nibbles, 0x08 next to HTAB, ...)
+const PAIR: &[u8] = &[0x00, 0x01, 0x08, 0x09, 0x0a, 0x0b, 0x0c, 0x0d, 0x0e, 0x10, 0x11, 0x19, 0x1a, 0x1f, 0x20, 0x21, 0x22, 0x28, 0x29, 0x2c, 0x2d,
+    0x2f, 0x30, 0x31, 0x39, 0x3a, 0x3b, 0x3f, 0x40, 0x41, 0x46, 0x47, 0x5a, 0x5b, 0x5d, 0x60, 0x61, 0x66, 0x67, 0x7a, 0x7b, 0x7e, 0x7f,
+    0x80, 0x89, 0xa0, 0xbf, 0xc2, 0xff];
+/// Template sweeps: in each well-formed template message, EVERY position takes EVERY byte value (0..=255), and every pair of
+/// adjacent positions takes every pair of PAIR values; each mutated message is checked whole and cut 1..=9 bytes after the
+/// mutated position (fast paths that need k buffered bytes, the last <8 / <16 / <32 bytes of a buffer).
+fn search_sweep(ctx: &mut Ctx) {
+    // (kind, template, configs): kind 0 = request, 1 = response, 2 = parse_headers, 3 = parse_chunk_size
+    let templates: &[(u8, &[u8], &[u8])] = &[
+        (0, b"GET /index.html?q=1 HTTP/1.1\r\nHost: example.com\r\nX-Long-Header-Name_1: some value, here\t!\r\n\r\n", &[0, 4 + 16 + 64]),
+        (0, b"\r\n\nOPTIONS * HTTP/1.0\nA:b\nAccept-Encoding:  gzip \n\n", &[0, 64]),
+        (0, b"DELETE  /a/b  HTTP/1.1\r\nEmpty:\r\nK:\t v \r\n\r\n", &[4, 0]),
+        (0, b"PUT /caf\xc3\xa9/\xe2\x82\xac HTTP/1.1\r\nBad Name: x\r\nOk: 1\r\n\r\n", &[0, 64]),
+        (1, b"HTTP/1.1 200 OK\r\nServer: nginx/1.2\r\nContent-Length: 12345\r\n\r\n", &[0, 1 + 2 + 8 + 16 + 32]),
+        (1, b"HTTP/1.0 404\r\n\r\n", &[0, 8]),
+        (1, b"\r\nHTTP/1.1 301  Moved Permanently \r\nLocation : /a b\r\n folded\r\n\tmore \r\nBad Name\r\nZ: 1\r\n\r\n", &[1 + 2 + 8 + 32, 2, 0]),
+        (1, b"HTTP/1.1 500 caf\xc3\xa9 \xff\n \t X: 1\nY: 2\n\n", &[16, 0]),
+        (2, b"Host: a\r\nCookie: k=v; x=y\r\nX-Forwarded-For-0123456789-abcdefgh-ABCDEFGH: 0123456789 abcdefghijklmnopqrstuvwxyz\r\n\r\n", &[0]),
+        (2, b"a:b\nC-d: e f\t\n\n", &[0]),
+        (3, b"1aF;ext=1\r\n", &[0]),
+        (3, b"0\r\n", &[0]),
+        (3, b"fFfFfFfF0 \t\r\n", &[0]),
+        (3, b"00000000000000001\r\n", &[0]),
+    ];
+    let run = |ctx: &mut Ctx, kind: u8, m: &[u8], cfgs: &[u8]| {
+        match kind {
+            0 => for &c in cfgs { check_request(ctx, m, c, 3) },
+            1 => for &c in cfgs { check_response(ctx, m, c, 3) },
+            2 => { check_headers(ctx, m, 3); check_headers(ctx, m, 2) }
+            _ => check_chunk(ctx, m),
+        }
+    };
+    for &(kind, t, cfgs) in templates {
+        for i in 0..t.len() {
+            let mut m = t.to_vec();
+            ctx.gen = "byte-sweep";
+            for v in 0..=255u8 {
+                m[i] = v;
+                run(ctx, kind, &m, cfgs);
+                for e in i + 1..=(i + 9).min(t.len() - 1) { run(ctx, kind, &m[..e], &cfgs[..1]); }
+            }
+            if ctx.full() { return; }
+            if i + 1 < t.len() {
+                ctx.gen = "pair-sweep";
+                for &a in PAIR { for &b in PAIR {
+                    m[i] = a; m[i + 1] = b;
+                    run(ctx, kind, &m, &cfgs[..1]);
+                    run(ctx, kind, &m[..(i + 10).min(t.len())], &cfgs[..1]);
+                } }
+            }
+            if ctx.full() { return; }
+        }
+    }
+    ctx.gen = "enum";
+}
+
 fn pad(c: u8, n: usize) -> Vec<u8> { vec![c; n] }
 /// WITNESS_DEEP=k (thorough tier): every bounded-exhaustive enumeration goes k symbols deeper
 fn deep() -> usize { std::env::var("WITNESS_DEEP").ok().and_then(|v| v.parse().ok()).unwrap_or(0) }
@@ -672,6 +731,7 @@ fn main() {
         if fam == "response" || fam == "all" { search_response(&mut ctx); }
         if fam == "headers" || fam == "all" { search_header_block(&mut ctx, b"", 2); }
         if fam == "history" || fam == "all" { search_history(&mut ctx); }
+        if fam == "sweep" || fam == "all" { search_sweep(&mut ctx); }
         let pa = PARSE_ALLOCS.load(Ordering::Relaxed);
         if pa > 0 {
             ctx.max += 1;
